@@ -3,7 +3,7 @@
 spec/HaloFields.tla: the field resolver as coded (layer A: list normalisation, dependency closure, reversed de-duplication,
 temporary columns and their slot types, automatic subsample index columns) against layer D (every requested column canonical,
 no request fails).
-  M1  TLC: every duplicate-free request sequence of length <= 2 (quick) / 3 (thorough) over a 17-column universe (one per dtype /
+  M1  TLC: every duplicate-free request sequence of length <= 2 (quick) / 3 (thorough) over a 19-column universe (one per dtype /
       shape / derivation class) x cleaned on/off x subsamples none / A / A+B: RequestOK and OrderOK; the two original defects
       (temporary column typed by a stale variable; index columns added only for cleaned catalogs) are positive controls
   M2  TLC emits every request with the resolver's load order and temporary columns
@@ -23,7 +23,7 @@ from tlc import run_tlc, read_json
 
 def run(chk):
     rng = np.random.default_rng(chk.seed)
-    chk.cov['rule'] = ('requests = all duplicate-free sequences of <= 2 (quick) / 3 (thorough) columns over a 17-column universe x cleaned on/off x subsamples '
+    chk.cov['rule'] = ('requests = all duplicate-free sequences of <= 2 (quick) / 3 (thorough) columns over a 19-column universe x cleaned on/off x subsamples '
                        'none / A / A+B, enumerated by TLC; non-trivial = request with at least two columns or with subsamples; distinct by (sequence, cleaned, subsamples)')
     chk.assumptions += ['canonical value of a column = its value in the fields=all load of the same catalog (units of that load are verified by C05)',
                         'passthrough mode is not part of this check']
@@ -104,7 +104,9 @@ def run(chk):
                 chk.violation(f'missing-{tag}-{col}', f'{desc}: requested column {col} is not in the table ({cobj.halos.colnames})', payload)
                 continue
             got = np.asarray(cobj.halos[col])
-            want = np.asarray(R.halos[col]) if R is not None and col in R.halos.colnames else None
+            # the subsample index columns are re-based when subsamples are loaded: their canonical value is that of the fields=all load with the same subsamples
+            Rc = ref.get((c['cleaned'], abk)) if col.startswith('np') else R
+            want = np.asarray(Rc.halos[col]) if Rc is not None and col in Rc.halos.colnames else None
             if want is None:
                 continue
             if got.dtype != want.dtype or got.shape != want.shape or not np.array_equal(got, want, equal_nan=True):
